@@ -184,12 +184,12 @@ class Gen:
         name = self.pick_name()
         c = self.spec.get(name)
         dim = c['dim'] if c else 2
-        k = rng.choice([0, 0, 1, 3, 50, -1])
-        radius = rng.choice([0, 0, 0, 0.5, 10.0, -1.0])
+        k = rng.choice([0, 0, 0, 1, 3, 50, -1])
+        radius = rng.choice([0, 0, 0, 0, 0.5, 10.0, -1.0])
         if self.template and rng.random() < 0.7:
             k, radius = self.template['k'], self.template['radius']
         off, lim = rng.choice([0, 0, 1, 3]), rng.choice([0, 0, 2, 5])
-        flt = rng.choice([None, None, None, 'k == "v"', 'name EXISTS'])
+        flt = rng.choice([None, None, 'k == "v"', 'name EXISTS'])
         filter_ok = True
         if rng.random() < (0.05 if not self.hostile else 0.3):
             flt, filter_ok = rng.choice(['k ==', '((', 'a == 1 b == 2', 'x DOES NOT']), False
@@ -223,8 +223,22 @@ class Gen:
         vl = len(v) if v is not None else 0
         model = 'Search %d%%N %s %s %s %s %s (%d)%%Z %s %d%%N %d%%N' % (TOK[name], b(body_ok), b(filter_ok or not body_ok), b(text and body_ok), b(k == 0), b(radius == 0), vl, b(flt is not None and filter_ok), off, lim)
         malformed = (not body_ok) or (not filter_ok) or (c is not None and not listing and vl != c['dim'])
+        extra = {}
+        if c is not None and listing and body_ok and filter_ok and not text:
+            # the page a listing must return: documents in string order of their ids, filtered, sliced (C16 through REST)
+            def acc(md):
+                if flt is None:
+                    return True
+                if flt == 'k == "v"':
+                    return isinstance(md, dict) and md.get('k') == 'v'
+                if flt == 'name EXISTS':
+                    return isinstance(md, dict) and 'name' in md
+                return None
+            rows = [(i, c['docs'][i][1]) for i in sorted(c['docs'], key=str) if acc(c['docs'][i][1])]
+            rows = rows[off:] if lim == 0 else rows[off:off + lim]
+            extra['expect_page'] = rows
         self.step(method, path, body, model, 'search', malformed=malformed, unknown=c is None, embed=text and body_ok and filter_ok, name=name,
-                  search=dict(k=k, radius=radius, off=off, lim=lim, flt=flt if filter_ok else None, v=v, listing=listing))
+                  search=dict(k=k, radius=radius, off=off, lim=lim, flt=flt if filter_ok else None, v=v, listing=listing), **extra)
 
     def probes(self):
         self.step('GET', '/api/v1/collections', None, 'ListC', 'list', malformed=False, unknown=False)
@@ -236,6 +250,16 @@ class Gen:
                 self.step('POST', '/api/v1/collections/%s/search' % quote(name), '{}', 'Search %d%%N true true false true true 0%%Z false 0%%N 0%%N' % TOK[name], 'search',
                           malformed=False, unknown=False, name=name, search=dict(k=0, radius=0, off=0, lim=0, flt=None, v=None, listing=True), probe=True,
                           expect=[(i, c['docs'][i][1]) for i in sorted(c['docs'], key=str)])
+                if c['docs'] and self.rng.random() < 0.5:
+                    # a filtered page with an offset: the offset counts accepted documents only (C16 through REST)
+                    flt = self.rng.choice(['k == "v"', 'name EXISTS'])
+                    off, lim = self.rng.choice([1, 2]), self.rng.choice([0, 1, 3])
+                    ok_ = (lambda md: isinstance(md, dict) and md.get('k') == 'v') if flt.startswith('k') else (lambda md: isinstance(md, dict) and 'name' in md)
+                    rows = [(i, c['docs'][i][1]) for i in sorted(c['docs'], key=str) if ok_(c['docs'][i][1])]
+                    rows = rows[off:] if lim == 0 else rows[off:off + lim]
+                    self.step('POST', '/api/v1/collections/%s/search' % quote(name), json.dumps({'filter': flt, 'offset': off, 'limit': lim}),
+                              'Search %d%%N true true false true true 0%%Z true %d%%N %d%%N' % (TOK[name], off, lim), 'search', malformed=False, unknown=False, name=name,
+                              search=dict(k=0, radius=0, off=off, lim=lim, flt=flt, v=None, listing=True), vecprobe=True, expect_page=rows)
                 if c['docs'] and self.rng.random() < 0.5:
                     # every stored vector, through the distances of an exact search from one of them
                     qid = self.rng.choice(sorted(c['docs']))
@@ -372,6 +396,11 @@ def spec_judge(g, obs, prop):
             odd = [x.get('name') for x in body if x.get('name') not in NAMES]
             if odd:
                 yield i, 'the collection list names %r, which was never created (created names: %s)' % (odd[0], NAMES), 'rest:C17:list-name'
+        if prop == 'C17' and 'expect_page' in st and status == 200 and isinstance(body, dict):
+            got = [(int(r['id']), r.get('metadata')) for r in (body.get('results') or [])]
+            if got != st['expect_page']:
+                yield i, ('listing page of %s (filter %r, offset %d, limit %d) is %s, the specification gives %s'
+                          % (st['name'], st['search']['flt'], st['search']['off'], st['search']['lim'], str([g_[0] for g_ in got])[:100], str([w_[0] for w_ in st['expect_page']])[:100])), 'rest:C17:page'
         if prop == 'C17' and 'expect' in st and status == 200:
             if k == 'ids' and st['expect'] is not None and [int(x) for x in (body or [])] != st['expect']:
                 yield i, 'ids of %s are %s, the specification has %s' % (st['name'], str(body)[:80], st['expect'][:20]), 'rest:C17:ids'
@@ -381,7 +410,7 @@ def spec_judge(g, obs, prop):
                     bad = next((a for a, b2 in zip(got, st['expect']) if a != b2), None)
                     yield i, ('listing of %s differs from the specification (ids in string order, each with the metadata of its last accepted write): got %s, want %s'
                               % (st['name'], str(bad or got)[:120], str(next((b2 for a, b2 in zip(got, st['expect']) if a != b2), st['expect']))[:120])), 'rest:C17:listing'
-            if st.get('vecprobe') and isinstance(body, dict):
+            if st.get('vecprobe') and 'expect_page' not in st and isinstance(body, dict):
                 got = sorted((float(r['distance']), int(r['id'])) for r in (body.get('results') or []))
                 want = st['expect']
                 if [g_[1] for g_ in sorted(got, key=lambda t: t[1])] != [w_[1] for w_ in sorted(want, key=lambda t: t[1])] or \
